@@ -29,7 +29,9 @@ func (c *ConfigStorage) Config() (conf *config.Config, err error) {
 		if errors.Is(err, os.ErrNotExist) {
 			cfg := config.NewConfig()
 
-			if c.objectFormat != formatcfg.SHA1 {
+			// only a repository that really uses another format than SHA1
+			// needs the v1 extension; an unset format means the default
+			if c.objectFormat != formatcfg.SHA1 && c.objectFormat != formatcfg.UnsetObjectFormat {
 				cfg.Core.RepositoryFormatVersion = formatcfg.Version1
 				cfg.Extensions.ObjectFormat = c.objectFormat
 			}
